@@ -265,7 +265,7 @@ def observe(seed, tier):
                 txt = open(os.path.join(gdir, fn)).read()
                 if re.search(r"\b(cff|cffx)\.(Flow|Parallel)\(", txt):
                     hit("C13", "generated file %s still contains a directive call" % fn, {"file": fn})
-        rc, o, e = common.run(["go", "vet", "./gen"], cwd=mod, env=common.GOENV, check=False, timeout=900)
+        rc, o, e = common.run(["go", "build", "./gen/..."], cwd=mod, env=common.GOENV, check=False, timeout=900)
         if rc != 0:
             summary["build_ok"] = False
             errs = [l for l in (o + e).split("\n") if re.search(r"_gen\.go:\d+", l)]
